@@ -124,17 +124,19 @@ class Labware:
             A dictionary that names the content of non-empty real wells for composition tracking.
         """
         # sanity checking
-        if not isinstance(rows, int) or rows < 1:
+        if not isinstance(rows, int) or rows < 1 or rows > 26:
             raise ValueError(f"Invalid rows: {rows}")
         if not isinstance(columns, int) or columns < 1:
             raise ValueError(f"Invalid columns: {columns}")
-        if min_volume is None or min_volume < 0:
+        if min_volume is None or not min_volume >= 0:
             raise ValueError(f"Invalid min_volume: {min_volume}")
-        if max_volume is None or max_volume <= min_volume:
+        if max_volume is None or not max_volume > min_volume:
             raise ValueError(f"Invalid max_volume: {max_volume}")
         if virtual_rows is not None and rows != 1:
             raise ValueError("When using virtual_rows, the number of rows must be == 1")
-        if virtual_rows is not None and virtual_rows < 1:
+        if virtual_rows is not None and (
+            not isinstance(virtual_rows, int) or virtual_rows < 1 or virtual_rows > 26
+        ):
             raise ValueError(f"Invalid virtual_rows: {virtual_rows}")
         if virtual_rows and not isinstance(self, Trough):
             warnings.warn(
@@ -155,6 +157,8 @@ class Labware:
             rows,
             columns,
         ), f"Invalid shape of initial_volumes: {initial_volumes.shape}"
+        if not np.all(np.isfinite(initial_volumes)):
+            raise ValueError("initial_volume must be finite")
         if np.any(initial_volumes < 0):
             raise ValueError("initial_volume cannot be negative")
         if np.any(initial_volumes > max_volume):
@@ -400,6 +404,9 @@ class Trough(Labware):
             A list/tuple of names for the column-wise contents of the troughs.
             If provided, these names are used for composition tracking.
         """
+        if not isinstance(columns, int) or columns < 1:
+            raise ValueError(f"Invalid columns: {columns}")
+
         # Convert lazily scalar-valued parameters to lists
         if column_names is None:
             column_names = [None] * columns
